@@ -1703,7 +1703,13 @@ func (e *Exec) next(st *State, fr *Frame, in *ssa.Next) {
 		r := Fresh("it_rune", SBV(32))
 		s := it.One()
 		st.Assume(Implies(ok, BVCmp("bvult", idx, SLen(s))))
-		L = append(L, idx, r)
+		// a component the loop does not use has the invalid type and no leaves
+		for k, t := range []*Term{idx, r} {
+			if b, okb := tt.At(k + 1).Type().(*types.Basic); okb && b.Kind() == types.Invalid {
+				continue
+			}
+			L = append(L, t)
+		}
 	} else {
 		m := it.One()
 		for k := 1; k < tt.Len(); k++ {
